@@ -17,7 +17,7 @@ PROPS = {
                      "through all 8 selections + the default overload (API) and judged against the proved reference inclM; "
                      "non-trivial = L(A) non-empty (so the verdict is not vacuous); distinct = distinct case text",
                 assumptions=PROOF_ASSUME),
-    "C02": dict(level="proof", cli=dict(kinds=[("cliop_c02", 1)], quick=150, thorough=4000), kinds=[("union", 6), ("unionpre", 4), ("uniondisj", 4), ("isect", 6), ("isectbu", 6), ("glue", 1)],
+    "C02": dict(level="proof", cli=dict(kinds=[("cliop_c02", 1)], quick=150, thorough=4000), kinds=[("union", 6), ("unionpre", 4), ("uniondisj", 4), ("isect", 6), ("isectbu", 6), ("glue", 1), ("mapsx", 2)],
                 n=dict(quick=3000, thorough=300000, search=4000),
                 rule="pairs of explicit tree automata with overlapping / sparse numbers; results judged by isUnionM / isIsectM "
                      "(proved), the reported maps by coverage, injectivity and the image / product certificate; operands "
@@ -164,7 +164,7 @@ PROPS = {
 # additions to the rule texts (what else runs inside the check since the first version)
 RULE_EXTRA = {
     "C01": "a fresh slice of the pairs also runs on the UNSANITISED build (address reuse is invisible under ASan); the certifying models of the upward, upward+simulation and (small operands) downward algorithms must return and agree with the implementation; `achain` histories compare the real antichain containers with their model (correspondence only)",
-    "C02": "a CLI slice runs `vata union` / `vata isect` on generated files and judges the printed automaton with isUnionM / isIsectM",
+    "C02": "a CLI slice runs `vata union` / `vata isect` on generated files and judges the printed automaton with isUnionM / isIsectM; `mapsx` cases (Union with one map object for both translators, Intersection / IntersectionBU with a pre-filled product map: outside the documented contracts) compare the library with the models of Vata/UnionIsectMaps.lean through the characterisations proved for them (correspondence only, except the in-contract corners: state-disjoint operands, empty product map)",
     "C03": "a CLI slice runs `vata load`, `-p load`, `-s load` and judges the printed automaton (language, exact reload, post-conditions)",
     "C04": "a CLI slice runs `vata sim` in both directions (relation mapped back through the printed index); `binrel` histories compare the real BinaryRelation / DiscontBinaryRelation with their model (correspondence only)",
     "C05": "35 % chain-shaped automata (every state owns the leaf rule, binary rules over earlier states); a CLI slice runs `vata red`; `binrel` histories (correspondence only)",
